@@ -118,7 +118,9 @@ theorem ni_of_step {s s' : AggState} (hI : NI W types S s) (hr : RInv W s') (hst
 /-- the spec of `remap_interface` at a given fuel -/
 def IfaceSpec (W : Colls) (types : Types) (S : Nat → Prop) (f : Nat) : Prop :=
   ∀ d id s id' s', NI W types S s → SrcOK types d id → remapInterface f types id s = .ok (id', s') →
-    NI W types S s' ∧ NRStep types.uid s s' ∧ PostNK types S s' (.instance id) (.instance id')
+    NI W types S s' ∧ NRStep types.uid s s' ∧ PostNK types S s' (.instance id) (.instance id') ∧
+      (alGet s.agg.remapped (GTy.mk' types (.interface id)) = none →
+        id' + 1 = s'.agg.types.interfaces.length ∧ IWF s'.agg.types (fun j => S j ∨ j = id'))
 
 /-- the spec of `remap_item_kind` on source kinds of the nested fragment -/
 def KindSpec (W : Colls) (types : Types) (S : Nat → Prop) (f : Nat) : Prop :=
@@ -132,7 +134,8 @@ theorem kindSpec_succ (f : Nat) (hi : IfaceSpec W types S f) : KindSpec W types 
     refine ⟨ni_of_step hW hI a b, b.toNRStep, .inl c1, fun t ht => ⟨_, c2 t ht⟩⟩
   · simp only [remapKind, bind_ok, run_pure, Except.ok.injEq, Prod.mk.injEq] at h
     obtain ⟨id', s1, h1, rfl, rfl⟩ := h
-    exact hi d t s id' s1 hI hsrc h1
+    obtain ⟨a, b, c, _⟩ := hi d t s id' s1 hI hsrc h1
+    exact ⟨a, b, c⟩
 
 omit hW hs in
 theorem unfoldItems_of_all2' {types T : Types} {S : Nat → Prop} :
@@ -181,7 +184,7 @@ theorem ifaceSpec_succ (f : Nat) (hk : KindSpec W types S f) : IfaceSpec W types
         simp only [run_pure, Except.ok.injEq, Prod.mk.injEq] at h
         obtain ⟨rfl, rfl⟩ := h
         obtain ⟨a, b, c⟩ := hI.ik id i' hg
-        exact ⟨hI, NRStep.refl _ _, .inr ⟨i', rfl, a, b⟩, c⟩
+        exact ⟨hI, NRStep.refl _ _, ⟨.inr ⟨i', rfl, a, b⟩, c⟩, fun hn => by cases hn⟩
       | _ => simp [run_apanic] at h
     | none =>
       rw [hg] at h
@@ -242,7 +245,7 @@ theorem ifaceSpec_succ (f : Nat) (hk : KindSpec W types S f) : IfaceSpec W types
               · exact hq.2.1
               · exact ih x hx
           exact this hall' x hx
-        refine ⟨⟨?_, ?_, ?_, ?_⟩, hst2.trans hstep3, ?_, ?_⟩
+        refine ⟨⟨?_, ?_, ?_, ?_⟩, hst2.trans hstep3, ⟨?_, ?_⟩, fun _ => ⟨by simp, ?_⟩⟩
         · -- AInv
           refine ⟨⟨?_, hI2.ainv.rinv.closed.same_defined hext3 rfl,
             hI2.ainv.rinv.shape.insert _ _ (fun d hd => by simp [GTy.mk'] at hd) (fun f hf => by simp [GTy.mk'] at hf)⟩,
@@ -316,6 +319,29 @@ theorem ifaceSpec_succ (f : Nat) (hk : KindSpec W types S f) : IfaceSpec W types
             simp only [Types.unfoldKind, List.getElem?_concat_length]
             rw [unfoldItems_frame hI2.iwf hfr3 hfroz hM]
             rfl
+
+        · -- nothing refers to the new interface
+          intro j itf hj x hx
+          simp only at hj
+          have lift : ∀ y : Str × ItemKind, FrozenK s2.agg.types S y.2 →
+              FrozenK { s2.agg.types with interfaces := s2.agg.types.interfaces ++ [{ id := none, uses := [], exports := E' }] }
+                (fun j => S j ∨ j = s2.agg.types.interfaces.length) y.2 := by
+            rintro y (h | ⟨t, h1, h2, h3⟩)
+            · exact .inl h
+            · refine .inr ⟨t, h1, ?_, by simp; omega⟩
+              rintro (hc | hc)
+              · exact h2 hc
+              · exact absurd hc (Nat.ne_of_lt h3)
+          rcases Nat.lt_or_ge j s2.agg.types.interfaces.length with hlt | hge
+          · rw [List.getElem?_append_left hlt] at hj
+            exact lift x (hI2.iwf j itf hj x hx)
+          · have : j = s2.agg.types.interfaces.length := by
+              have := getElem?_lt hj
+              simp at this; omega
+            subst this
+            simp at hj
+            subst hj
+            exact lift x (hfroz x hx)
 
 /-- **`remap_interface` / `remap_item_kind` on the nested fragment** (every fuel) -/
 theorem remapNest_spec : ∀ f, IfaceSpec W types S f ∧ KindSpec W types S f
